@@ -29,19 +29,34 @@ type histOp struct {
 	v  []byte
 }
 
-func mkHistory(seed int64, n int) (node [32]byte, ops []histOp) {
+// mkHistory: with distinct = false ids come from a pool of 30 (overwrites; the usage figure then over-counts, which
+// hides a lost update of it); with distinct = true every put has its own id, so the usage figure equals the bytes
+// held exactly and a size record that misses one item is visible (seed C17-3).
+func mkHistory(seed int64, n int, distinct bool) (node [32]byte, ops []histOp) {
 	rng := common.Rng(seed)
 	rng.Read(node[:])
-	pool := mkPool(rng, node, 30, int(seed%3))
+	np := 30
+	if distinct {
+		np = n
+	}
+	pool := mkPool(rng, node, np, int(seed%3))
 	for i := 0; i < n; i++ {
 		sz := []int{0, 1000, 20000, 30000, 49968, 49968, 60000}[rng.Intn(7)]
-		ops = append(ops, histOp{pool[rng.Intn(len(pool))], mkVal(rng, sz)})
+		id := pool[rng.Intn(len(pool))]
+		if distinct {
+			id = pool[i]
+			sz = []int{0, 1000, 20000, 30000, 49968, 49968, 49968}[rng.Intn(7)]
+		}
+		ops = append(ops, histOp{id, mkVal(rng, sz)})
 	}
 	return
 }
 
+const freezeAtEnd = -1 // runHistory: copy the file system at the moment the last put returns
+
 type crashOut struct {
 	fsOps   int64
+	endFS   vfs.FS // freezeAtEnd: the file system as it was when the last put returned
 	fs      vfs.FS
 	issued  []item // every put that was started before the run stopped
 	crashed bool
@@ -59,6 +74,8 @@ func runHistory(node [32]byte, ops []histOp, crashAt int64, keep bool) (res cras
 	var n atomic.Int64
 	hitCh := make(chan struct{})
 	unfreeze := make(chan struct{})
+	var endFrozen atomic.Bool
+	endRelease := make(chan struct{})
 	inj := errorfs.InjectorFunc(func(op errorfs.Op, path string) error {
 		k := n.Add(1)
 		if crashAt > 0 && k >= crashAt {
@@ -66,6 +83,9 @@ func runHistory(node [32]byte, ops []histOp, crashAt int64, keep bool) (res cras
 				close(hitCh)
 			}
 			<-unfreeze
+		}
+		if endFrozen.Load() {
+			<-endRelease
 		}
 		return nil
 	})
@@ -99,6 +119,21 @@ func runHistory(node [32]byte, ops []histOp, crashAt int64, keep bool) (res cras
 			mu.Unlock()
 			if err := cs.Put(nil, o.id, o.v); err != nil && !errors.Is(err, storage.ErrInsufficientRadius) {
 				done <- fmt.Errorf("put during history: %w", err)
+				return
+			}
+		}
+		if crashAt == freezeAtEnd {
+			// the process dies right after the last put returned: every later file-system operation (the compaction that
+			// a prune starts in the background) blocks while the file system is copied with all written data kept
+			endFrozen.Store(true)
+			time.Sleep(2 * time.Millisecond)
+			clone := vfs.NewMem()
+			_, cerr := vfs.Clone(mem, clone, "db", "db")
+			res.endFS = clone
+			endFrozen.Store(false)
+			close(endRelease)
+			if cerr != nil {
+				done <- cerr
 				return
 			}
 		}
@@ -197,7 +232,7 @@ func runCrash(w *tracelog.Writer, out string, seed int64, histories, nops, strid
 		}
 		exp = hI * 100000
 		hseed := seed*104729 + int64(hI)
-		node, ops := mkHistory(hseed, nops)
+		node, ops := mkHistory(hseed, nops, hI%2 == 1)
 		base, err := runHistory(node, ops, 0, false)
 		if err != nil {
 			return err
@@ -495,14 +530,46 @@ func runTorn(w *tracelog.Writer, seed int64, histories, nops, window int) error 
 		rng.Read(node[:])
 		// distinct ids: without overwrites the persisted usage figure equals the bytes held exactly, so a
 		// lost update of either is visible
-		pool := mkPool(rng, node, nops, int(hseed%3))
+		full := hI%2 == 1
 		var ops []histOp
-		for i := 0; i < nops; i++ {
-			ops = append(ops, histOp{pool[i], mkVal(rng, []int{0, 1, 40, 100, 300, 700}[rng.Intn(6)])})
+		if !full {
+			pool := mkPool(rng, node, nops, int(hseed%3))
+			for i := 0; i < nops; i++ {
+				ops = append(ops, histOp{pool[i], mkVal(rng, []int{0, 1, 40, 100, 300, 700}[rng.Intn(6)])})
+			}
+		} else {
+			// a store filled to its capacity with items of just under 5 %, then small puts: the put that crosses the capacity
+			// prunes in the same call, so the end of the log is [item + usage figure][prune batch] (seed C17-3); up to two
+			// more small puts follow
+			pool := mkPool(rng, node, 64, int(hseed%3))
+			total, i := 0, 0
+			for ; total+49932 <= 1000000; i++ {
+				ops = append(ops, histOp{pool[i], mkVal(rng, 49900)})
+				total += 49932
+			}
+			crossed := false
+			for extra := rng.Intn(3); i < len(pool) && (!crossed || extra > 0); i++ {
+				if crossed {
+					extra--
+				}
+				v := mkVal(rng, []int{40, 100, 300, 600}[rng.Intn(4)])
+				ops = append(ops, histOp{pool[i], v})
+				total += 32 + len(v)
+				if total > 1000000 {
+					crossed = true
+				}
+			}
 		}
-		base, err := runHistory(node, ops, 0, false)
+		crashAt := int64(0)
+		if full {
+			crashAt = freezeAtEnd
+		}
+		base, err := runHistory(node, ops, crashAt, false)
 		if err != nil {
 			return err
+		}
+		if full {
+			base.fs = base.endFS
 		}
 		// the history ran to the end and the database was closed: its log holds every put; the process is
 		// taken to have died with the tail of that log only partly on disk
@@ -531,7 +598,7 @@ func runTorn(w *tracelog.Writer, seed int64, histories, nops, window int) error 
 			}
 			exp++
 			w.Emit(map[string]any{"ev": "init", "t": exp, "node": tracelog.Ints(node[:]), "cap": 1000000})
-			w.Emit(map[string]any{"ev": "crashrun", "t": exp, "history": hI, "k": int(k), "keep": true, "issued": r.issued})
+			w.Emit(map[string]any{"ev": "crashrun", "t": exp, "history": hI, "k": int(k), "keep": true, "issued": r.issued, "full": full})
 			lo := len(data) - window
 			if lo < 0 {
 				lo = 0
